@@ -17,6 +17,21 @@
                                           (KeyError) is not modelled: it leaves the dictionary as it is
      <obj>.report(...), self.system.msg(...)   no effect on the modelled state (dropped by the translator when their
                                           arguments have no effect and only use bound names)
+   Constructs the translator produces by normalisation:
+     SBlock x body      the inlined body of a helper (a function of the same module, or a method of the same class, whose
+                        body is itself in the language): its parameters and locals are fresh variables of the caller,
+                        `return v` inside it ends the block with x := v, falling off its end gives x := None
+     SForSubtree e x b  `for x in _walk_with_members(e): b`, accepted only when the text of the module-level generator
+                        _walk_with_members is, up to the names of its locals, the explicit-stack pre-order walk
+                            pending = [ob]
+                            while pending: current = pending.pop(); yield current
+                                           pending.extend(reversed(list(current.contents.values())))
+                        and b only touches the registry: its stated meaning is the iteration over Model/Project.v's
+                        `subtree` (the object, then its members through `contents`, parents first, depth bounded by dfuel)
+     a local bound to <obj>.contents, <obj>._localNameToFullName_map or <x>.system.allobjects is not a value of the
+                        language: the translator reads `d[k] = v` / `del d[k]` on it as the update of that dictionary and
+                        rejects any other use, and any rebinding of the local or of <obj>; every Documentable's .system is
+                        the one System
    Ill-typed operations (an attribute of None, `in` on something that is not a collection, ...) evaluate to VErr, and a
    statement that needs such a value fails (XErr): Python would raise. *)
 From Coq Require Import ZArith NArith List Bool.
@@ -43,7 +58,8 @@ Inductive expr :=
 | EFullName (e : expr)                   (* e.fullName() *)
 | EIn (a b : expr)                       (* a in b *)
 | EIsNone (e : expr)                     (* e is None *)
-| ENot (e : expr) | EAnd (a b : expr) | EOr (a b : expr).
+| ENot (e : expr) | EAnd (a b : expr) | EOr (a b : expr)
+| ECond (c a b : expr).                  (* a if c else b *)
 
 Inductive stmt :=
 | SSkip
@@ -61,7 +77,9 @@ Inductive stmt :=
 | SSetAlias (e k v : expr)               (* e._localNameToFullName_map[k] = v *)
 | SDelReg (k : expr)                     (* del self.system.allobjects[k] *)
 | SSetReg (k v : expr)                   (* self.system.allobjects[k] = v *)
-| SForContents (e : expr) (x : var) (body : stmt).   (* for x in e.contents.values(): body *)
+| SForContents (e : expr) (x : var) (body : stmt)    (* for x in e.contents.values(): body *)
+| SForSubtree (e : expr) (x : var) (body : stmt)     (* for x in _walk_with_members(e): body *)
+| SBlock (x : option var) (body : stmt).             (* x = <inlined helper>(...) *)
 
 Definition env := var -> value.
 Definition env0 : env := fun _ => VErr.          (* an unbound local: the translator rejects reads before a binding *)
@@ -161,6 +179,11 @@ Section Exec.
                   match truth va with Some true => eval s en b | Some false => va | None => VErr end
     | EOr a b => let va := eval s en a in
                  match truth va with Some true => va | Some false => eval s en b | None => VErr end
+    | ECond c a b => match truth (eval s en c) with
+                     | Some true => eval s en a
+                     | Some false => eval s en b
+                     | None => VErr
+                     end
     end.
 
   Definition lift (o : option state) (en : env) : xres :=
@@ -249,6 +272,25 @@ Section Exec.
                             end
                end) (map snd (contents_of s o)) s en
         | _ => XErr
+        end
+    | SForSubtree e x body =>
+        match eval s en e with
+        | VObj o =>
+            (fix loop (l : list oid) (s : state) (en : env) : xres :=
+               match l with
+               | [] => XGo s en
+               | c :: l' => match exec body s (setv en x (VObj c)) with
+                            | XGo s1 e1 => loop l' s1 e1
+                            | r => r
+                            end
+               end) (subtree s o) s en
+        | _ => XErr
+        end
+    | SBlock x body =>
+        match exec body s en with
+        | XGo s1 e1 => XGo s1 (match x with Some y => setv e1 y VNone | None => e1 end)
+        | XRet s1 v => XGo s1 (match x with Some y => setv en y v | None => en end)
+        | XErr => XErr
         end
     end.
 End Exec.
